@@ -586,6 +586,16 @@ end C10
 /-! ### C11 — is_alive tells the truth (strong handles) -/
 namespace C11
 
+/-- the upgrade clause as a fold (the form the invariant proof uses): the strong handles the script holds,
+    and "every failed upgrade so far happened while it held none" -/
+def upStep (st : List Nat × Bool) : Ev → List Nat × Bool
+  | .handleNew h true => (st.1 ++ [h], st.2)
+  | .handleDrop h => (st.1.filter (· != h), st.2)
+  | .upgradeFailed _ => (st.1, st.2 && st.1.isEmpty)
+  | _ => st
+
+def upgradeTruthful (ev : List Ev) : Bool := (ev.foldl upStep ([0], true)).2
+
 def ok (t : Trace) : Bool :=
   let rec go (seen : List Ev) : List Ev → Bool
     | [] => true
@@ -602,7 +612,7 @@ def ok (t : Trace) : Bool :=
        -- the script itself still holds a strong handle (whether or not the actor has ended)
        | .upgradeFailed _ => (C07.strongHandlesAfter seen).isEmpty
        | _ => true) && go (seen ++ [e]) es
-  go [] t.ev
+  go [] t.ev && upgradeTruthful t.ev
 end C11
 
 /-! ### C13 — exactly one dead letter per failed delivery, none per success -/
